@@ -163,7 +163,28 @@ void World::exec_track_op(const Step& s)
             slot.h->update(r);
         });
         note("rewrite track " + std::to_string(slot.id) + (e.out.threw ? " -> threw " + e.out.exc : " -> ok"));
-        e.expect_unchanged = true;
+        if (e.out.threw || s.fault.kind != FK_NONE)
+            e.expect_unchanged = true;
+        else
+        {
+            // the snapshot just read must be a fixed point of update()
+            e.fields = {"*"};
+            try
+            {
+                auto r2 = slot.h->snapshot();
+                auto f1 = render_snapshot(r), f2 = render_snapshot(r2);
+                for (size_t i = 0; i < f1.size(); ++i)
+                    if (f1[i].second != f2[i].second)
+                        report("C01", "C01|rewrite|" + fam() + "|fixed-point:" + f1[i].first,
+                               "writing a track's own snapshot back changed " + f1[i].first + " from " +
+                                   f1[i].second + " to " + f2[i].second);
+                probes.hit("fixed_point_checked");
+            }
+            catch (const std::exception& ex)
+            {
+                report("C01", "C01|rewrite|" + fam() + "|snapshot-throws", ex.what());
+            }
+        }
         (void)got;
         after_step(e);
         return;
